@@ -33,6 +33,21 @@ class Codec:
         """
         self.protocol: FIXProtocolBase = protocol
         self.SOH = "\x01"
+        self.MARKER = b"8=FIX."
+
+    def _next_start(self, rawmsg: bytes, start: int) -> int:
+        """Index of next possible message beginning at or after `start`.
+
+        If there is no marker, everything is skipped except a beginning of the marker
+        at the end of `rawmsg` (the rest of it may arrive with next socket read).
+        """
+        idx = rawmsg.find(self.MARKER, start)
+        if idx != -1:
+            return idx
+        for n in range(len(self.MARKER) - 1, 0, -1):
+            if len(rawmsg) - n >= start and rawmsg.endswith(self.MARKER[:n]):
+                return len(rawmsg) - n
+        return len(rawmsg)
 
     @staticmethod
     def current_datetime() -> str:
@@ -148,31 +163,34 @@ class Codec:
             if OK - (FIXMessage, bytes_processed, valid_raw_msg_bytes)
             if ERR - (None, n_bytes_skip, None)
         """
-        valid_idx = rawmsg.find(b"8=FIX.")
+        valid_idx = rawmsg.find(self.MARKER)
         if valid_idx == -1:
             assert silent, "no fix header"
-            return None, len(rawmsg), None
+            return None, self._next_start(rawmsg, 0), None
 
         parsed_length = valid_idx
 
-        msg = rawmsg[valid_idx:].decode("latin-1")
+        # Message ends with CheckSum(10) field, field values never contain SOH
+        end_idx = rawmsg.find(b"\x0110=", valid_idx)
+        if end_idx != -1:
+            end_idx = rawmsg.find(b"\x01", end_idx + 1)
+        next_msg = len(rawmsg) if end_idx == -1 else end_idx + 1
 
-        next_msg = msg[5:].find("8=FIX.")
-        if next_msg != -1:
-            # Next fix message added, but incomplete
-            next_msg += 5
-        else:
-            next_msg = len(msg)
+        # in case of malformed message, decoding resumes at next possible message
+        skip_length = self._next_start(rawmsg, valid_idx + 1)
 
-        encoded_msg = rawmsg[valid_idx : next_msg + valid_idx]
+        encoded_msg = rawmsg[valid_idx:next_msg]
 
-        msg = msg[:next_msg].split(self.SOH)
+        msg = encoded_msg.decode("latin-1").split(self.SOH)
         if not msg[-1]:
             msg = msg[:-1]
 
         # at a minimum we require BeginString, BodyLength & Checksum
         if len(msg) < 3:
             assert silent, "Minimum message"
+            if end_idx != -1:
+                # complete but too short, never becomes valid with more data
+                return (None, skip_length, None)
             return (None, parsed_length, None)
 
         tag, value = msg[0].split("=", 1)
@@ -182,27 +200,32 @@ class Codec:
                 % (value, self.protocol.beginstring)
             )
             assert silent, "protocol beginstring mismatch"
-            return (None, len(rawmsg), None)
+            return (None, skip_length, None)
 
         toks = msg[1].split("=", 1)
         if len(toks) != 2:
             assert silent, f"BodyLength split error {msg}"
-            return (None, len(rawmsg), None)
+            return (None, skip_length, None)
         tag, value = toks
 
-        msg_length = len(msg[0]) + len(msg[1]) + len("10=000") + 3
         if tag != FTag.BodyLength:
             logging.error(f"*** BodyLength missing or not 2nd field *** [{tag}]: {msg}")
             assert silent, "2nd tag must be BodyLength"
-            return (None, len(rawmsg), None)
-        else:
-            msg_length += int(value)
+            return (None, skip_length, None)
+        if not (value.isascii() and value.isdigit()):
+            assert silent, f"BodyLength is not a number {msg}"
+            return (None, skip_length, None)
 
-        # message looks incomplete
-        if msg_length > len(rawmsg):
-            assert silent, "incomplete message"
-            return (None, parsed_length, None)
+        if end_idx == -1:
+            msg_length = len(msg[0]) + len(msg[1]) + len("10=000") + 3 + int(value)
+            if msg_length > len(rawmsg) - valid_idx:
+                # message looks incomplete
+                assert silent, "incomplete message"
+                return (None, parsed_length, None)
+            assert silent, "CheckSum missing"
+            return (None, skip_length, None)
 
+        msg_length = next_msg - valid_idx
         checksum_passed = False
         parsed_length += msg_length
 
@@ -213,16 +236,19 @@ class Codec:
 
         for m in msg:
             toks = m.split("=", 1)
-            if len(toks) != 2:
+            if len(toks) != 2 or not (toks[0].isascii() and toks[0].isdigit()):
                 assert silent, f"incomplete tag {m}"
-                return (None, len(rawmsg), None)
+                return (None, skip_length, None)
             tag, value = toks
 
             if tag == FTag.CheckSum:
                 cheksum_base = self.SOH.join(msg[:-1])
                 checksum = (sum([ord(i) for i in cheksum_base]) + 1) % 256
 
-                if checksum != int(value):
+                if not (len(value) == 3 and value.isascii() and value.isdigit()):
+                    assert silent, f"invalid checksum tag[10]={value} must be 3 digits"
+                    checksum_passed = False
+                elif checksum != int(value):
                     logging.warning(
                         "\tCheckSum: %s (INVALID) expecting %s" % (int(value), checksum)
                     )
@@ -300,4 +326,4 @@ class Codec:
             return (decoded_msg, parsed_length, encoded_msg)
         else:
             assert silent, f"Checksum probably missing: {msg}"
-            return (None, parsed_length, None)
+            return (None, skip_length, None)
